@@ -1,5 +1,5 @@
 """Shared pattern helpers: condition normalisation, facts at a block, path enumeration with branch atoms."""
-from .facts import S, strip, nodes, walk, is_lit, lit_name, AnalysisBroken
+from .facts import root_of, S, strip, nodes, walk, is_lit, lit_name, AnalysisBroken
 from . import cfg as C
 
 NEG = {'==': '!=', '!=': '==', '<': '>=', '>=': '<', '>': '<=', '<=': '>'}
@@ -304,3 +304,66 @@ def local_init_from(fn, pred):
 def table_lookup_local(fn, header):
     """local that holds htp_table_get_c(<table>, "<header>")"""
     return local_init_from(fn, lambda e: e is not None and e.get('k') == 'call' and e.get('callee') == 'htp_table_get_c' and len(e['args']) > 1 and strip(e['args'][1]).get('k') == 'str' and strip(e['args'][1])['v'] == header)
+
+
+WRITERS = {'memcpy': (0,), 'memmove': (0,), 'memset': (0,), 'strncpy': (0,), 'strcpy': (0,), 'snprintf': (0,), 'vsnprintf': (0,), 'strlcat': (0,), 'free': (0,), 'realloc': (0,)}
+
+
+def writes_param(db, fname, pi, depth=0, seen=()):
+    """may the function store through (or release) what its parameter #pi points to?  True / False; unknown callees and
+    unresolved indirect calls count as True unless the parameter type is pointer-to-const"""
+    f = db.fn.get(fname)
+    if f is None:
+        return fname not in ('strlen', 'memcmp', 'strcmp', 'strncmp', 'memchr', 'strchr', 'isspace', 'isdigit') if fname not in WRITERS else pi in WRITERS[fname]
+    if pi >= len(f.params):
+        return True
+    if f.params[pi]['t'].startswith('const '):
+        return False
+    if depth > 4 or (fname, pi) in seen:
+        return False
+    names = {f.params[pi]['name']}
+    # local aliases: q = p (+ k) / q = (T *) p
+    ch = True
+    while ch:
+        ch = False
+        for b, i, st in f.stmts():
+            for x in nodes(st, lambda y: y.get('k') in ('assign', 'decl')):
+                items = [(strip(x['l']), x['r'])] if x['k'] == 'assign' and x['op'] == '=' else [({'k': 'var', 'name': v['name']}, v['init']) for v in x.get('vars', []) if 'init' in v] if x['k'] == 'decl' else []
+                for l, r in items:
+                    if l is None or l.get('k') != 'var' or l['name'] in names:
+                        continue
+                    r0 = strip(r)
+                    while r0 is not None and r0.get('k') == 'bin' and r0['op'] in ('+', '-'):
+                        r0 = strip(r0['l'])
+                    if r0 is not None and r0.get('k') == 'cond':
+                        cands = [strip(r0.get('a')), strip(r0.get('b'))]
+                    else:
+                        cands = [r0]
+                    for c_ in cands:
+                        while c_ is not None and c_.get('k') == 'bin' and c_['op'] in ('+', '-'):
+                            c_ = strip(c_['l'])
+                        if c_ is not None and ((c_.get('k') == 'var' and c_['name'] in names) or (c_.get('k') == 'member' and (root_of(c_) or {}).get('name') in names and '*' in (c_.get('t') or ''))):
+                            names.add(l['name'])
+                            ch = True
+    from .facts import root_of as _r
+    for b, i, st in f.stmts():
+        for x in nodes(st):
+            if x['k'] == 'assign' or (x['k'] == 'un' and x['op'] in ('++', '--', '++post', '--post')):
+                l = strip(x.get('l') if x['k'] == 'assign' else x['e'])
+                if l is not None and l.get('k') in ('index', 'member') or (l is not None and l.get('k') == 'un' and l['op'] == '*'):
+                    r = _r(l)
+                    if r is not None and r.get('k') == 'var' and r['name'] in names:
+                        return True
+            elif x['k'] == 'call':
+                for ai, a in enumerate(x['args']):
+                    a0 = strip(a)
+                    while a0 is not None and a0.get('k') == 'bin' and a0['op'] in ('+', '-'):
+                        a0 = strip(a0['l'])
+                    r = _r(a0) if a0 is not None else None
+                    if r is not None and r.get('k') == 'var' and r['name'] in names and '*' in ((a0 or {}).get('t') or '*'):
+                        cal = x.get('callee')
+                        if cal is None:
+                            return True
+                        if writes_param(db, cal, ai, depth + 1, seen + ((fname, pi),)):
+                            return True
+    return False
